@@ -29,7 +29,7 @@ let parse_ints (s : string) : z list =
 let show_line (l : z list) : string = String.concat " " (List.map string_of_cz l)
 
 let engines : (string * (z list -> (z list * z list) list -> verdict)) list = [
-  ("storage", (fun _ tr -> check_storage tr));
+  ("storage", chk_storage);
 ]
 
 let () =
